@@ -292,7 +292,7 @@ def read_vcf_text(path):
 # running the real CLI from the overlay
 # ------------------------------------------------------------------------------------------------
 
-def whatshap(args, overlay, trace=None, env_extra=None, timeout=600, cwd=None):
+def whatshap(args, overlay, trace=None, env_extra=None, timeout=300, cwd=None):
     """runs `python -m whatshap <args>` with the working-tree overlay first on the path.
     Returns (returncode, stdout, stderr, trace_records)"""
     if not os.path.exists(os.path.join(overlay, "whatshap", "__init__.py")):
